@@ -332,3 +332,60 @@ func ruleHeadNotLocked(r *Run) {
 		r.violation("VersionedCtx.Head", "datastore.VersionedCtx.Head not found", "-")
 	}
 }
+
+// ---------------------------------------------------------------------------------------------
+// R16.11 — store-path ranges over decimal ids are not cut lexicographically
+
+func init() {
+	register(ruleDef{ID: "R16.11", Prop: "C16", Tier: "quick", Floor: 2,
+		Title: "a key range means the same body ids in memory and in the store: annotation keys are decimal strings whose lexicographic order is not numeric order, so a store scan is bounded by the whole annotation key class (and filtered numerically), never by keys built from the request's ids",
+		Fn:    ruleNoLexicographicIDBounds})
+}
+
+func ruleNoLexicographicIDBounds(r *Run) {
+	w := r.W
+	rangeNames := map[string]bool{"GetRange": true, "KeysInRange": true, "SendKeysInRange": true, "ProcessRange": true, "DeleteRange": true, "processStoreKeysInRange": true}
+	n := 0
+	for _, f := range w.RepoFuncs {
+		if relPkg(pkgPathOf(f)) != "datatype/neuronjson" || len(f.Blocks) == 0 || strings.HasSuffix(w.fposFile(f), "_test.go") {
+			continue
+		}
+		k := 0
+		for _, c := range calls(f) {
+			if !rangeNames[methodNameOf(c)] {
+				continue
+			}
+			var tks []ssa.Value
+			for _, a := range c.Common().Args {
+				if typeIs(a.Type(), "storage", "TKey") {
+					tks = append(tks, a)
+				}
+			}
+			if len(tks) != 2 {
+				continue
+			}
+			n++
+			k++
+			bad := ""
+			for _, tk := range tks {
+				for _, rt := range roots(tk, f) {
+					x := rt.V
+					if ex, ok := x.(*ssa.Extract); ok {
+						x = ex.Tuple
+					}
+					switch y := x.(type) {
+					case *ssa.Call:
+						if cal := y.Call.StaticCallee(); cal != nil && (cal.Name() == "NewTKey") {
+							bad = w.pos(y.Pos())
+						}
+					case *ssa.Parameter:
+						// a helper that is handed its bounds: judged at its callers
+					}
+				}
+			}
+			r.check(bad == "", fmt.Sprintf("%s:%s#%d:bounds-are-the-key-class", fname(f), methodNameOf(c), k), "the scan is bounded by the annotation key class",
+				"a store scan over annotation keys is bounded by keys built from body ids of the request: the keys are decimal strings (\"10\" < \"9\"), so the scan misses ids and includes others; the in-memory path answers the numeric interval", bad)
+		}
+	}
+	r.check(n >= 2, "neuronjson:store-scans", fmt.Sprintf("%d store scans with two key bounds", n), "too few: rule needs review", "-")
+}
